@@ -145,7 +145,8 @@ def case_1d(ctx, index, rng: random.Random):
         if np.any(np.diff(np.where(ix < 0, ix + n, ix)) <= 0):
             ix = np.array(pos)
     elif kind == "array_bad":
-        ix = np.array([0, n + rng.randint(0, 3)])
+        # beyond the end, or below -n (also so far below that it is in range again after one wrap)
+        ix = np.array(rng.choice([[0, n + rng.randint(0, 3)], [-n - 1], [n - 1, -n - rng.randint(1, n)], [-2 * n], [0, -n - 2]]))
     else:
         if n < 2:
             return
